@@ -98,6 +98,7 @@ def run(run, tier):
     res.mism = [x for x in res.mism if not is_default_alias(x[2])]
     res.oracle_bad = [x for x in res.oracle_bad if not is_default_alias(x[3])]
     SC.report(run, PID, L.ENTRY, res, 'Model/Simple.v', 'Props/C03.v')
+    C.extra_props(run, 'C03', props, ['C03x'])
     if not props['ok']:
         run.violation('C03/proof', 'Props/C03.v no longer checks: %s' % props['log'][-400:], {'broken': 'coq/Props/C03.v', 'log': props['log']}, no_input=True)
     shapes = {}
